@@ -50,6 +50,9 @@ extern "C"
     long c13_const(int i);
     int c13_print_f(void (*h)(void *, int), void *d, long double r, int width, int precision, unsigned int ops,
                     int base, int with_exp, int is_shortened);
+    // harness/C13_ld.c: third compilation with -DLONG_DOUBLE (DOUBLE = long double)
+    int c13_ld_printf(void (*h)(void *, int), void *d, const char *format, va_list args);
+    long c13_ld_const(int i);
 }
 
 using namespace hv;
@@ -483,7 +486,8 @@ static mpq_class pow10q(long e)
 }
 static long ilog10q(const mpq_class &q) // floor(log10 q), q > 0, exact
 {
-    long e = (long)floor(log10(q.get_d() > 0 ? q.get_d() : 5e-324));
+    // estimate from the bit lengths (q may be far outside the range of double), then correct by comparison
+    long e = (long)floor(((double)mpz_sizeinbase(q.get_num().get_mpz_t(), 2) - (double)mpz_sizeinbase(q.get_den().get_mpz_t(), 2)) * 0.30102999566);
     while (pow10q(e) > q) e--;
     while (pow10q(e + 1) <= q) e++;
     return e;
@@ -1105,6 +1109,72 @@ static void run_pfd(const std::vector<std::string> &w, out &o)
     judge(d, x, ret, s, refs, false, o);
 }
 
+
+// ---------------------------------------------------------------- round 3: the LONG_DOUBLE flavour (pfx)
+// pfx <fmt-hex> <se> <mant>: an `L` directive through the build of printf_impl.c with LONG_DOUBLE defined (the
+// engine then computes in long double: modfl fmodl powl).  NOT modelled (the model's arithmetic is binary64): the
+// result field is the constant "ld" on both sides; the ORACLE judges the real code: returned value = number of
+// callbacks, ASan on the 352-byte buffer, inf/nan text = glibc, finite: strtold(text) within half a unit of the
+// last printed digit + (16 + |decimal exponent| + digits) ulps of the 64-bit significand.
+static int ld_shim(Sink *s, const char *fmt, ...)
+{
+    va_list ap;
+    va_start(ap, fmt);
+    int r = c13_ld_printf(sink_cb, s, fmt, ap);
+    va_end(ap);
+    return r;
+}
+static void run_pfx(const std::vector<std::string> &w, out &o)
+{
+    if (w.size() < 4) { o.result = "bad-op"; o.fail("bad op"); return; }
+    bytes fb = unhex(w[1]);
+    std::string fmt(fb.begin(), fb.end());
+    long double v = ld_of((unsigned)strtoul(w[2].c_str(), 0, 16), strtoull(w[3].c_str(), 0, 16));
+    Dir d = parse_dir(fmt, {});
+    if (!d.ok || fmt.find('L') == std::string::npos) { o.result = "bad-op"; o.fail("bad op"); return; }
+    Sink s;
+    int ret = ld_shim(&s, fmt.c_str(), v);
+    o.result = "ld";
+    o.tag("long-double-flavour");
+    if (c13_ld_const(4) != (long)sizeof(long double)) o.fail("the LONG_DOUBLE build does not compute in long double");
+    if (ret != (int)s.calls) o.fail("returned " + std::to_string(ret) + " but emitted " + std::to_string(s.calls));
+    std::string outs(s.out.begin(), s.out.end());
+    std::vector<char> ref(16384);
+    int rn = snprintf(ref.data(), ref.size(), fmt.c_str(), v);
+    std::string refs(ref.data(), (size_t)std::min<long>(rn, (long)ref.size() - 1));
+    if (!std::isfinite(v))
+    {
+        if (outs != refs) o.fail("non-finite argument: igris <" + outs + "> ISO/glibc <" + refs + ">");
+        return;
+    }
+    if (outs.size() < d.pre.size() + d.post.size()) { o.fail("literal text lost"); return; }
+    std::string body = outs.substr(d.pre.size(), outs.size() - d.pre.size() - d.post.size());
+    // value and unit of the printed text (exact)
+    mpq_class tv = tie::text_value(body);
+    size_t epos = body.find_first_of("eE");
+    std::string mant = body.substr(0, epos);
+    long fd = 0;
+    { size_t dot = mant.find('.'); if (dot != std::string::npos) for (size_t i = dot + 1; i < mant.size() && isdigit((unsigned char)mant[i]); i++) fd++; }
+    long ex = epos == std::string::npos ? 0 : strtol(body.c_str() + epos + 1, 0, 10);
+    mpq_class unit = tie::pow10q(ex - fd);
+    // the argument, exactly
+    int e2;
+    long double fr = frexpl(fabsl(v), &e2);
+    mpz_class m64((unsigned long)ldexpl(fr, 64));
+    mpq_class x(m64);
+    if (e2 - 64 >= 0) x *= mpq_class(mpz_class(1) << (unsigned long)(e2 - 64)); else x /= mpq_class(mpz_class(1) << (unsigned long)(64 - e2));
+    mpq_class ulp = v == 0 ? mpq_class(0) : mpq_class(x / mpq_class(mpz_class(1) << 63));
+    long X = v == 0 ? 0 : tie::ilog10q(x);
+    long P = d.has_prec ? d.prec : 6;
+    mpq_class err = abs(tv - x);
+    if (err > unit / 2 + (16 + labs(X) + P) * ulp)
+    {
+        mpq_class q = err / unit;
+        o.fail("LONG_DOUBLE build: the text is about 1e" + std::to_string(tie::ilog10q(q)) + " units of its last digit away from the argument: igris <" + outs.substr(0, 80) + "> glibc <" + refs.substr(0, 80) + ">");
+    }
+    else if (outs == refs) o.tag("eq-glibc");
+}
+
 // ---------------------------------------------------------------- generator
 struct Gen
 {
@@ -1511,6 +1581,30 @@ static void gen(rng &R, const std::string &tier)
             printf("pfd %s %ld %ld %x %d %d\n", hexn(bits_of(v), 16).c_str(), wd, pr, m, c == 1, c == 2);
         }
     }
+    // ---- round 3: the LONG_DOUBLE flavour (oracle only); values whose integer part fits the 352-byte buffer.
+    //      Beyond that the build loses the leading digits: finding C13-long-double-build-digits (probes)
+    puts("@F:C13-long-double-build-digits pfx 254c66 452f da763fc8cb9ff9e6");   // %Lf 1e400L
+    puts("@F:C13-long-double-build-digits pfx 252e334c66 7ffe d72cb2a95c7ef6cd"); // %.3Lf 1e4932L
+    {
+        long N = thorough ? 3000 : 200;
+        for (long i = 0; i < N; i++)
+        {
+            long double v = G.ldvalue();
+            if (std::isfinite(v) && v != 0 && (fabsl(v) > 1e300L || fabsl(v) < 1e-300L)) continue;
+            std::vector<long> star;
+            std::string f = G.directive(star, CONVS[R.below(6)], R.chance(60) ? 0 : (int)R.below(32), R.chance(60) ? 0 : (int)R.below(5), (int)R.range(-2, 25));
+            if (!star.empty()) continue;
+            if (f.size() >= 2 && f[f.size() - 2] == 'l') f.erase(f.size() - 2, 1);
+            if (Gen::g_style_carry(f, (double)v, {})) continue;
+            f.insert(f.size() - 1, "L");
+            unsigned char b[16] = {0};
+            memcpy(b, &v, 10);
+            uint64_t m;
+            memcpy(&m, b, 8);
+            unsigned se = b[8] | (b[9] << 8);
+            printf("pfx %s %s %s\n", hex(f).c_str(), hexn(se, 4).c_str(), hexn(m, 16).c_str());
+        }
+    }
     // ---- exhaustive small space: every flag subset x conversion x {no width, 12} x
     //      {no precision, .0, .1, .6} on the special values
     {
@@ -1568,6 +1662,7 @@ static void run(const std::vector<std::string> &w, const std::string &, out &o)
     else if (w[0] == "pm") run_pm(w, o);
     else if (w[0] == "consts") run_consts(o);
     else if (w[0] == "pfd") run_pfd(w, o);
+    else if (w[0] == "pfx") run_pfx(w, o);
     else { o.result = "bad-op"; o.fail("bad op"); }
 }
 
